@@ -54,7 +54,7 @@ type vStep struct {
 }
 
 // commands that dedicated runs single out (parameter "cmdname")
-var vNamedCmds = []string{"", "MODE", "NICK", "PING", "JOIN", "QUIT", "KILL", "PART"}
+var vNamedCmds = []string{"", "MODE", "NICK", "PING", "JOIN", "QUIT", "KILL", "PART", "PRIVMSG"}
 
 var vRoleNames = []string{"unregistered", "client", "oper", "services"}
 
@@ -94,6 +94,11 @@ func vDoStep() *vStep {
 		params[j] = vStr(t.L)
 		// bound: comma-separated lists have at most two items
 		verifAssume(strings.Count(params[j], ",") <= verifParam("commas", 1))
+	}
+	if lt := verifParam("longtext", 0); lt > 0 && n >= 2 {
+		// a text that makes the rendered line longer than one IRC line: arbitrary first and last
+		// bytes around harmless filler (the cut at 510 bytes must hold for every such line)
+		params[1] = vStr(2) + strings.Repeat("a", lt) + vStr(2)
 	}
 	if cmd == "MODE" && n >= 2 && verifParam("modeprefix", 0) == 1 {
 		// compound mode strings: the unprivileged ban-list query "+b" followed by one more mode change
